@@ -30,6 +30,11 @@ use crate::with_input;
 pub struct Env {
     pub cfg: Cfg,
     pub backend: Backend,
+    /// Poseidon2 table configs OTHER than the challenger's that the backend variant adds to a layer
+    /// proof; the native verifier registers them after the challenger table, as the examples do
+    /// (`verifier.register_poseidon2_table::<D>(cfg); ..(cfg_arity4)`). Empty for the plain backend
+    /// and for the variants documented to be indistinguishable from it.
+    pub verifier_extra: Vec<p3_recursion::Poseidon2Config>,
     pub fri: FriParams,
     pub params: Vec<(String, ProveNextLayerParams)>,
 }
@@ -137,6 +142,9 @@ pub fn a_circuit_id(
 fn layer_verifier(env: &Env, p: usize) -> BatchStarkProver<Cfg> {
     let mut v = BatchStarkProver::new(env.cfg.clone()).with_table_packing(env.params[p].1.table_packing.clone());
     v.register_poseidon2_table::<D>(P2);
+    for e in &env.verifier_extra {
+        v.register_poseidon2_table::<D>(*e);
+    }
     v.register_recompose_table::<D>(P2.d() != D);
     v
 }
